@@ -41,6 +41,58 @@ def _has_call(n, pred) -> bool:
     return any(isinstance(c, ast.Call) and pred(c) for e in own_exprs(n) for c in walk_scope(e))
 
 
+def rule_per_partition_accumulators(ctx: Ctx) -> None:
+    """C05-2: a container that is stored *per partition* (`table[p.name] = frozenset(acc)`, `self._outboxes[p.name] = acc`) inside a loop over the
+    partitions is created inside that loop — one object per partition.  An accumulator hoisted out of the loop makes every later
+    partition's set contain the earlier partitions' members: their cross-partition traffic is then treated as local and bypasses the barrier."""
+    prog = ctx.prog
+    n = 0
+    for rel in (PSIM, COORD, ROUT, VAL):
+        for fn in prog.module(rel).all_functions:
+            for lp in walk_scope(fn.node):
+                if not (isinstance(lp, ast.For) and isinstance(lp.target, ast.Name) and unparse(lp.iter).replace(" ", "") in ("partitions", "self._partitions")):
+                    continue
+                v = lp.target.id
+                for st in walk_stmts(lp.body):
+                    if not (isinstance(st, ast.Assign) and isinstance(st.targets[0], ast.Subscript) and unparse(st.targets[0].slice).replace(" ", "") == f"{v}.name"):
+                        continue
+                    accs = {y.id for y in ast.walk(st.value) if isinstance(y, ast.Name) and y.id != v}
+                    for a in sorted(accs):
+                        # is `a` a container grown in this loop?
+                        grown = any(isinstance(c, ast.Call) and isinstance(c.func, ast.Attribute) and path_of(c.func.value) == a and c.func.attr in ("add", "update", "append", "extend", "__ior__")
+                                    for c in calls_in(lp)) or any(isinstance(c, ast.AugAssign) and path_of(c.target) == a for c in walk_stmts(lp.body))
+                        binds_in = [d for d in walk_stmts(lp.body) if isinstance(d, (ast.Assign, ast.AnnAssign)) and path_of(d.targets[0] if isinstance(d, ast.Assign) else d.target) == a and d.value is not None]
+                        binds_all = [d for d in walk_scope(fn.node, include_root=False) if isinstance(d, (ast.Assign, ast.AnnAssign)) and path_of(d.targets[0] if isinstance(d, ast.Assign) else d.target) == a and d.value is not None]
+                        if not grown and not binds_in:
+                            continue  # a value computed elsewhere and merely looked up here (e.g. a parameter): not an accumulator
+                        n += 1
+                        ok = bool(binds_in) and len(binds_in) == len(binds_all) and binds_in[0] in lp.body and all(
+                            isinstance(d.value, (ast.List, ast.Set, ast.Dict, ast.ListComp, ast.SetComp, ast.DictComp, ast.Call)) for d in binds_in)  # built here, not an alias of an outer object
+                        ctx.ob("C05-2", "G6", fn, st, ok, f"{fn.qual}: `{a}`, stored for partition `{v}` by `{norm_stmt(st)[:60]}`, is a fresh container created inside the loop over the partitions "
+                               "(one object per partition; a shared accumulator leaks earlier partitions' members into later ones)")
+    need(n >= 2, f"C05-2: expected >= 2 per-partition accumulators (entity-id sets, outboxes), found {n}")
+
+
+def rule_window_loop_shape(ctx: Ctx) -> None:
+    """C05-1: the loop that runs a partition up to a window end treats each popped event in exactly one of four ways — cancelled (counted,
+    nothing else), late (dropped, nothing else), delivered, delivered with products pushed.  In particular a cancelled event does not move the
+    partition's clock: an idle partition whose next heap entry is a cancelled far-future timer would otherwise jump ahead and later discard
+    the cross-partition arrivals of the windows in between as time travel."""
+    from .c04 import LoopInfo, _project
+
+    fast = LoopInfo(ctx, ctx.prog.func(SIM, "Simulation._execute_until"))
+    seqs = {}
+    for p_ in enumerate_paths(fast.ff, fast.loop_head, stop=fast.is_loop_head):
+        if p_.end == "raise" or not any(n_ is fast.pop_node for n_ in p_.nodes):
+            continue
+        seqs.setdefault(_project(ctx, fast, p_), p_.describe())
+    want = {("POP", "CANC+1"), ("POP",), ("POP", "CLOCK", "PROC+1", "TIME", "INVOKE"), ("POP", "CLOCK", "PROC+1", "TIME", "INVOKE", "PUSH")}
+    got = set(seqs)
+    ctx.ob("C05-1", "G4", fast.fn, "window loop: per-event effect sequences", got == want,
+           "Simulation._execute_until: per popped event the core effects are " + ", ".join("·".join(s_) for s_ in sorted(got))
+           + ("" if got == want else " — expected " + ", ".join("·".join(s_) for s_ in sorted(want)) + " (a cancelled or late event must not touch the clock)"), node=fast.while_stmt)
+
+
 def rule_membership_tables(ctx: Ctx) -> None:
     """C05-2: every table that says which partition a component lives in covers entities, sources and probes alike (a cross-partition
     event may target a source or a probe; the coordinator drops events whose target it cannot place)."""
@@ -98,6 +150,8 @@ def rule_membership_tables(ctx: Ctx) -> None:
 def run(ctx: Ctx) -> None:
     prog = ctx.prog
     ctx.guarded(rule_membership_tables)
+    ctx.guarded(rule_per_partition_accumulators)
+    ctx.guarded(rule_window_loop_shape)
     # ---- C05-1 horizon of the window loop
     L = LoopInfo(ctx, prog.func(SIM, "Simulation._execute_until"))
     _rule_horizon(ctx, L, rule="C05-1")
@@ -431,6 +485,8 @@ def run(ctx: Ctx) -> None:
 
 
 MUTANTS = [
+    ("window-loop-cancelled-event-moves-clock", SIM, "            if event._cancelled:\n                events_cancelled += 1\n                continue\n\n            event_time = event.time\n            if event_time < current_time:", "            event_time = event.time\n            if event._cancelled:\n                events_cancelled += 1\n                current_time = event_time\n                continue\n\n            if event_time < current_time:", "C05-1"),
+    ("entity-set-accumulator-hoisted", VAL, "    for p in partitions:\n        ids: set[int] = set()\n", "    ids: set[int] = set()\n    for p in partitions:\n", "C05-2"),
     ("coordinator-map-omits-sources-and-probes", PSIM, "                entity_to_partition[id(probe)] = p.name\n\n        coordinator = WindowedCoordinator(", "                pass\n\n        coordinator = WindowedCoordinator(", "C05-2"),
     ("override-calls-missing-method", COORD, "                    event.time = send_time + link.latency.get_latency(send_time)", "                    event.time = send_time + link.latency.sample()", "C05-2"),
     ("override-skips-min-latency-check", COORD, "                    event.time = send_time + link.latency.get_latency(send_time)\n\n", "                    event.time = send_time + link.latency.get_latency(send_time)\n                    self._simulations[dest_name].schedule(event)\n                    delivered += 1\n                    continue\n\n", "C05-2"),
